@@ -20,7 +20,9 @@ impl TreeOpts {
     }
 }
 
-const PLAIN_NAMES: [&str; 12] = ["a", "b", "c", "name", "given_name", "addr", "x1", "k k", "q\"\\", "\u{e9}t\u{e9}", "\u{65e5}\u{672c}", "Z"];
+const PLAIN_NAMES: [&str; 22] = ["a", "b", "c", "name", "given_name", "addr", "x1", "k k", "q\"\\", "\u{e9}t\u{e9}", "\u{65e5}\u{672c}", "Z",
+    // registered claim names below the top level are ordinary members; names that are prefixes of one another
+    "iss", "exp", "iat", "nbf", "id", "idcard", "card", "no", "note", "te"];
 const WILD_NAMES: [&str; 6] = ["", "a.b", "c[0]", ".", "[", "$.x"];
 const NONBMP_NAMES: [&str; 2] = ["\u{1f600}", "k\u{1d4b3}"];
 const STRS: [&str; 16] = [
@@ -78,6 +80,10 @@ pub fn rleaf(r: &mut StdRng, o: &TreeOpts) -> Value {
     }
 }
 pub fn rtree(r: &mut StdRng, o: &TreeOpts, d: u32) -> Value {
+    if d >= 2 && r.gen_bool(0.06) {
+        // "prefix trap": a member whose name plus a child's name spells a sibling's name (id.card vs idcard)
+        return json!({"id": {"card": rleaf(r, o), "x": rtree(r, o, d - 2)}, "idcard": rleaf(r, o), "no": {"te": rleaf(r, o)}, "note": rtree(r, o, d - 2)});
+    }
     let k = r.gen_range(0..10);
     if d == 0 || k < 3 {
         return rleaf(r, o);
